@@ -56,7 +56,7 @@ def run(ctx):
     rng = random.Random(ctx.seed + 22)
     execs, meta = [], []
     for H in (5, 10, 30):
-        r = tlc.check("Heartbeat.tla", "MC_Heartbeat_export_H%d.cfg" % H, workers=8, timeout=900)
+        r = tlc.check("Heartbeat.tla", "MC_Heartbeat_export_H%d.cfg" % H, workers=1, timeout=900)
         hs = tlc.leaves(r["out"])
         if len(hs) < 1000:
             raise core.Infra("timeline export produced only %d histories" % len(hs))
